@@ -25,21 +25,24 @@ def materialize(diff, tmp):
 
 def main():
     args = sys.argv[1:]
-    tier, only, ids = "quick", None, []
+    tier, only, ids, extra_diff = "quick", None, [], None
     i = 0
     while i < len(args):
         if args[i] == "--tier":
             tier = args[i + 1]; i += 2
         elif args[i] == "--only":
             only = args[i + 1]; i += 2
+        elif args[i] == "--diff":  # run one external diff (e.g. a seeded change) against the given check ids
+            extra_diff = args[i + 1]; i += 2
         else:
             ids.append(args[i]); i += 1
     if not ids:
         ids = sorted(os.path.basename(d) for d in glob.glob(os.path.join(VERIF, "selftest", "C*")))
     results = []
     for pid in ids:
-        for diff in sorted(glob.glob(os.path.join(VERIF, "selftest", pid, "*.diff"))):
-            name = os.path.basename(diff)[:-5]
+        diffs = [extra_diff] if extra_diff else sorted(glob.glob(os.path.join(VERIF, "selftest", pid, "*.diff")))
+        for diff in diffs:
+            name = os.path.basename(diff)[:-5] if not extra_diff else os.path.basename(os.path.dirname(os.path.dirname(diff))) + "/" + os.path.basename(os.path.dirname(diff))
             if only and only != name:
                 continue
             tmp = tempfile.mkdtemp(prefix="verif-mutant-")
